@@ -37,7 +37,8 @@ def replay(ctx, data):
         if want == "loads" and ic[0] != "prog":
             return "refused: %r" % (obj,)
         return None
-    return None
+    import oracles
+    return oracles.generic_replay(data)
 
 
 def run(ctx):
@@ -45,7 +46,11 @@ def run(ctx):
                 "scalar and array declarations, statements with every bracket style, positional / keyword / "
                 "list-valued keyword arguments, Measure* operations, for-loops over ranges and lists), half of "
                 "them under a random layout; a case is non-trivial when it has at least two operations and at "
-                "least one argument or computed mode; distinct by script text")
+                "least one argument or computed mode; distinct by script text; plus the interaction stream of "
+                "harness/interact.py (items drawn from a catalogue over the names x, m, A, B: redeclaration of scalars "
+                "and arrays under one name, index expressions between and after two declarations, empty loops followed "
+                "by loops over the same variable, loop variables shadowing declarations, options mixing positional and "
+                "keyword entries; about 60% valid) with the executable model as oracle")
     n = ctx.n(400, 6000)
     cases = []
     for i in range(n):
@@ -64,6 +69,9 @@ def run(ctx):
         if msg:
             ctx.violation("loaded program differs from the denotation: " + msg,
                           {"kind": "script", "script": script, "text": text})
+    # interaction stream: items sharing a tiny pool of names (redeclarations, indexing between two declarations of
+    # one array, an empty loop before a loop over the same variable, shadowing, mixed target options)
+    common.interaction_stream(ctx, ctx.n(300, 4000))
     # programs of type tdm: an array whose name merely starts like a p-array is an ordinary variable and denotes
     # its value; an array named exactly p<digits> is delivered by name (C15)
     from props import c05
